@@ -206,8 +206,8 @@ example : ∃ out, mapPipeline exTree { flatten := true, chunkSize := 2, nProc :
 /-- "... or a level is dropped for the run, in which case the levels that were
 not voted on are inferred from the voted descendant and flagged as not
 directly assigned": a run with `drop_level = l` (`l` any non-leaf level: top or
-middle; `cl` the level right below it) on a well-formed stored tree whose
-reduced tree is well-formed NEVER fails, returns one record per cell, and every
+middle; `cl` the level right below it) on a well-formed stored tree (the
+reduced tree is then well-formed too, `wfb_dropLevel`) NEVER fails, returns one record per cell, and every
 record binds every level of the STORED hierarchy to a node of that level,
 consecutive ones related by `child_to_parent` of the stored tree; the voted
 levels are flagged `directly_assigned = True`, the dropped level `False` and
@@ -217,7 +217,7 @@ theorem drop_path {κ} (t0 t' : RawTree) (cfg : Config) (vote : Oracle κ)
     (ids : List CellId) (cells : List κ) (order : List Nat)
     (hcfg : cfg.dropLevel = some l) (hflat : cfg.flatten = false)
     (hdrop : t0.dropLevel l = .ok t') (hs : t0.hierarchy = pre ++ l :: cl :: post)
-    (hwf0 : wfb t0 = true) (hwf : wfb t' = true) (hv : VoteOK t' vote)
+    (hwf0 : wfb t0 = true) (hv : VoteOK t' vote)
     (hlen : ids.length = cells.length) (hnd : ids.Nodup)
     (hproc : 1 ≤ cfg.nProc) (hcs : 1 ≤ cfg.chunkSize)
     (horder : order.Perm (List.range
@@ -230,8 +230,8 @@ theorem drop_path {κ} (t0 t' : RawTree) (cfg : Config) (vote : Oracle κ)
           ∃ e', o.levels.lookup x = some e' ∧ e'.assignment = path x ∧
             (x = l → e'.direct = some false ∧ e'.ru = none) ∧
             (x ≠ l → e'.direct = some true) :=
-  mapPipeline_drop_paths t0 t' cfg vote l cl pre post ids cells order hcfg hflat hdrop hs hwf0 hwf hv
-    hlen hnd hproc hcs horder
+  mapPipeline_drop_paths t0 t' cfg vote l cl pre post ids cells order hcfg hflat hdrop hs hwf0
+    (wfb_dropLevel hwf0 hdrop hs) hv hlen hnd hproc hcs horder
 
 /-- the example taxonomy without its middle level (what `drop_level` returns) -/
 def exDropped : RawTree :=
@@ -242,7 +242,7 @@ example : ∃ out, mapPipeline exTree { dropLevel := some 1, chunkSize := 2, nPr
     [7, 3, 9] [0, 1, 2] [1, 0] = .ok out ∧ out.length = 3 :=
   (fun ⟨out, h1, h2, _⟩ => ⟨out, h1, h2⟩) <|
     drop_path exTree exDropped { dropLevel := some 1, chunkSize := 2, nProc := 2 } exVote 1 2 [0] []
-      [7, 3, 9] [0, 1, 2] [1, 0] rfl rfl (by rfl) rfl exTree_wf (by decide) (exVote_ok _) rfl
+      [7, 3, 9] [0, 1, 2] [1, 0] rfl rfl (by rfl) rfl exTree_wf (exVote_ok _) rfl
       (by decide) (by decide) (by decide) (by decide)
 
 end CTM.C01
